@@ -1,7 +1,17 @@
 // std::thread model hooks shared by the pool-level harnesses (see rt/cbmc_rt.c: vf_std_thread_*).
 #pragma once
 #include <thread>
+#ifdef VF_THREAD_STATE_TRIVIAL
+// opt-in (define before including): the callable handed to std::thread only has trivially destructible
+// captures (dispenso::ThreadPool: this, a reference, an int), so its state object is released without the
+// virtual destructor call.  (CBMC resolves that call to every virtual of the state class, including
+// _M_run = the whole thread body, whenever the allocation happened under a symbolic condition.)
+extern "C" __attribute__((used, weak)) void vf_thread_state_dispose(void* st) {
+  ::operator delete(st);
+}
+#else
 extern "C" __attribute__((used, weak)) void vf_thread_state_dispose(void* st) {
   delete static_cast<std::thread::_State*>(st);
 }
+#endif
 extern "C" void vf_wait_started(uint32_t n);
